@@ -7,7 +7,10 @@ import (
 	"fmt"
 	"math/rand"
 	"os"
+	"runtime"
 	"strings"
+	"sync"
+	"sync/atomic"
 	"time"
 
 	"github.com/ngicks/gokugen/def"
@@ -34,6 +37,96 @@ func (f *faultyRepo) GetNext(ctx context.Context) (def.Task, error) {
 		return def.Task{}, errInjected
 	}
 	return f.Repository.GetNext(ctx)
+}
+
+// yieldRepo widens the window between a core operation and the hook call the observable wrapper makes after it
+// (concurrent mode): the goroutine yields, sometimes sleeps, right after every mutating core call
+type yieldRepo struct {
+	def.Repository
+	n atomic.Int64
+}
+
+func (y *yieldRepo) pause() {
+	k := y.n.Add(1)
+	runtime.Gosched()
+	if k%3 == 0 {
+		time.Sleep(time.Duration(20+k%7*15) * time.Microsecond)
+	}
+}
+func (y *yieldRepo) AddTask(ctx context.Context, p def.TaskUpdateParam) (def.Task, error) {
+	t, err := y.Repository.AddTask(ctx, p)
+	y.pause()
+	return t, err
+}
+func (y *yieldRepo) UpdateById(ctx context.Context, id string, p def.TaskUpdateParam) error {
+	err := y.Repository.UpdateById(ctx, id, p)
+	y.pause()
+	return err
+}
+func (y *yieldRepo) Cancel(ctx context.Context, id string) error {
+	err := y.Repository.Cancel(ctx, id)
+	y.pause()
+	return err
+}
+func (y *yieldRepo) MarkAsDispatched(ctx context.Context, id string) error {
+	err := y.Repository.MarkAsDispatched(ctx, id)
+	y.pause()
+	return err
+}
+
+// concurrentPhase: a few goroutines mutate shared tasks through the observable wrapper at the same time; what is
+// judged is the state at quiescence (C07: "for concurrent mutators checked at quiescence")
+func (h *hookRun) concurrentPhase() string {
+	ctx := context.Background()
+	type cop struct {
+		kind int
+		id   string
+		p    def.TaskUpdateParam
+	}
+	g := 2 + h.r.Intn(2)
+	plans := make([][]cop, g)
+	var log []string
+	for i := range plans {
+		k := 2 + h.r.Intn(3)
+		for j := 0; j < k; j++ {
+			c := cop{kind: h.r.Intn(4)}
+			switch c.kind {
+			case 0:
+				c.p = h.param(true)
+			case 1:
+				c.id, c.p = h.pickId(), h.param(false)
+			default:
+				c.id = h.pickId()
+			}
+			plans[i] = append(plans[i], c)
+			log = append(log, fmt.Sprintf("g%d:%s %s %s", i, []string{"Add", "Update", "Cancel", "Dispatch"}[c.kind], c.id, cq.UParam(c.p)))
+		}
+	}
+	var wg sync.WaitGroup
+	start := make(chan struct{})
+	for i := range plans {
+		wg.Add(1)
+		go func(ops []cop) {
+			defer wg.Done()
+			<-start
+			for _, c := range ops {
+				switch c.kind {
+				case 0:
+					_, _ = h.obs.AddTask(ctx, c.p)
+				case 1:
+					_ = h.obs.UpdateById(ctx, c.id, c.p)
+				case 2:
+					_ = h.obs.Cancel(ctx, c.id)
+				default:
+					_ = h.obs.MarkAsDispatched(ctx, c.id)
+				}
+			}
+		}(plans[i])
+	}
+	close(start)
+	wg.Wait()
+	h.stats["concurrent:goroutines"] += g
+	return strings.Join(log, " ; ")
 }
 
 type hookRun struct {
@@ -196,6 +289,7 @@ func hookMain(args []string) {
 	length := fs.Int("len", 40, "ops per history")
 	impl := fs.String("impl", "inmem", "core repository")
 	faults := fs.Bool("faults", false, "inject GetNext failures into re-arming")
+	concurrent := fs.Bool("concurrent", false, "sequential prefix, then 2-3 goroutines mutating shared tasks at once; the state at quiescence is judged (cases : list (bool * hobs))")
 	out := fs.String("out", "", "output .v")
 	statsOut := fs.String("stats", "", "stats json")
 	_ = fs.Parse(args)
@@ -210,12 +304,22 @@ func hookMain(args []string) {
 		h.faulty = &faultyRepo{Repository: s.repo}
 		h.ht = repository.NewMutationHookTimer()
 		h.ht.VerifSetClock(clock)
-		h.obs = repository.New(h.faulty, h.ht)
+		if *concurrent {
+			var ctr atomic.Int64
+			s.inmem.VerifSetIdGen(func() string { return fmt.Sprintf("t%d", ctr.Add(1)) })
+			h.obs = repository.New(&yieldRepo{Repository: h.faulty}, h.ht)
+		} else {
+			h.obs = repository.New(h.faulty, h.ht)
+		}
 		for i := 0; i < *length; i++ {
 			h.step(*faults)
 		}
-		s.closer()
 		c := " [" + strings.Join(h.out, ";\n  ") + "]"
+		if *concurrent {
+			lg := h.concurrentPhase()
+			c = " (" + cq.Bool(h.started) + ", " + h.obsTerm() + ") " + cq.Comment(lg)
+		}
+		s.closer()
 		cases = append(cases, c)
 		hashes = append(hashes, shortHash(c))
 		if k == 0 {
@@ -228,7 +332,11 @@ func hookMain(args []string) {
 	}
 	var b strings.Builder
 	b.WriteString("From GK Require Import SysCheck.\nOpen Scope string_scope.\nOpen Scope list_scope.\nOpen Scope Z_scope.\n")
-	b.WriteString("Definition cases : list hhist := [\n" + strings.Join(cases, ";\n") + "\n].\n")
+	if *concurrent {
+		b.WriteString("Definition cases : list (bool * hobs) := [\n" + strings.Join(cases, ";\n") + "\n].\n")
+	} else {
+		b.WriteString("Definition cases : list hhist := [\n" + strings.Join(cases, ";\n") + "\n].\n")
+	}
 	if err := os.WriteFile(*out, []byte(b.String()), 0o644); err != nil {
 		panic(err)
 	}
